@@ -177,6 +177,13 @@ def main():
             sys.stdout.flush()
             k += 1
             time.sleep(beh['ticks_ms'] / 1000.0)
+    if beh.get('block_with_child_s'):
+        # a wrapper whose solver blocks without using CPU: the child keeps
+        # the pipes of the command open after the command itself was killed
+        if os.fork() == 0:
+            time.sleep(beh['block_with_child_s'])
+            os._exit(0)
+        time.sleep(beh['block_with_child_s'])
     if beh.get('sleep_ms'):
         time.sleep(beh['sleep_ms'] / 1000.0)     # e.g. beyond --timeout
     if beh.get('kill'):
